@@ -438,10 +438,11 @@ def check(pid, tier, replay=None):
                     proto_bad += int(l.split('protocol_bad=')[1].split()[0])
         proto_all = [l for l in rep.splitlines() if l.startswith('PROTO')]
         is_scan_line = lambda l: (l.split(' op ')[1][:1] not in 'GIR') if ' op ' in l else False
-        proto_lines = [l for l in proto_all if is_scan_line(l) == (pid == 'C09')] if pid in ('C03', 'C09') else []
+        # C04: an unvalidated read or a pointer followed before its source node was validated is exactly how freed memory gets touched
+        proto_lines = [l for l in proto_all if is_scan_line(l) == (pid == 'C09')] if pid in ('C03', 'C09') else (proto_all if pid == 'C04' else [])
         if proto_lines and nproto < 2:
             nproto += 1
-            res.violation('an operation of the implementation does not follow the optimistic read protocol the C03 / C09 theorems assume (%s) on init '
+            res.violation('an operation of the implementation does not follow the optimistic read protocol the C03 / C04b / C09 theorems assume (%s) on init '
                           '{%s} program %s; no non-linearizable history was needed to see it' % (proto_lines[0][6:], init, prog),
                           {'kind': 'correspondence', 'init': init, 'program': prog, 'qs': qs,
                            'broken': 'Olc/Protocol.op_ok on the trace of the operation (hypotheses of C03_reader_linearizable)',
